@@ -319,7 +319,7 @@ def build_epub(sc, opf="OEBPS/content.opf"):
             if a.kind == "external":
                 continue
             k += 1
-            ext = a.media.rsplit(".", 1)[-1]
+            ext = a.media.rsplit(".", 1)[-1].lower()
             items.append(f'<item id="img{k}" href="{iri(ref(a.style, opf_dir, a.media))}" media-type="{CT.get(ext, "image/" + ext)}"/>')
     files[opf] = (f'<?xml version="1.0"?><package xmlns="http://www.idpf.org/2007/opf" version="3.0"><metadata xmlns:dc="http://purl.org/dc/elements/1.1/">'
                   f'<dc:title>t</dc:title></metadata><manifest>{"".join(items)}</manifest><spine>{"".join(spine)}</spine></package>')
@@ -456,7 +456,9 @@ def check(sc, aspects=ASPECTS, dedup=False):
 
 # ------------------------------------------------------------------- scenario generators --
 def gen_scenarios(fmt, seed=0, count=40, styles=("relative", "parent", "absolute", "dot"), kinds=("embedded", "missing", "external"),
-                  share=True, max_units=3, max_per_unit=3):
+                  share=True, max_units=3, max_per_unit=3, ext_case=False):
+    """ext_case: the extension of every media part name is written lower / UPPER / Capitalised in turn (cameras and scanners write
+    IMG_0002.JPG); the random stream is the same as without it."""
     rnd = random.Random(seed * 7919 + hash(fmt) % 1000 if False else seed * 7919 + sum(map(ord, fmt)))
     md = MEDIA_DIR[fmt]
     single = fmt in ("docx", "odt")
@@ -473,7 +475,8 @@ def gen_scenarios(fmt, seed=0, count=40, styles=("relative", "parent", "absolute
                 else:
                     k += 1
                     ext = rnd.choice(["png", "jpg", "jpeg", "gif", "bmp"])
-                    part = f"{md}/image{k}.{ext}"
+                    ext_w = (ext, ext.upper(), ext.capitalize())[k % 3] if ext_case else ext
+                    part = f"{md}/image{k}.{ext_w}"
                     if kind == "embedded":
                         media[part] = make_image(rnd, ext, k)
                 anchors.append(Anchor(part, style, kind))
@@ -514,6 +517,7 @@ def build_pdf(sc, bad_width_first=False, chains=None):
     from pypdf.generic import ArrayObject, DictionaryObject, NameObject, NumberObject, StreamObject, TextStringObject
     w = PdfWriter()
     k = 0
+    shared = {}          # one indirect stream object per media part: a picture placed on several pages is ONE XObject
     for anchors in sc.units:
         page = w.add_blank_page(width=200, height=200)
         xo = DictionaryObject()
@@ -543,7 +547,13 @@ def build_pdf(sc, bad_width_first=False, chains=None):
                 so[NameObject("/Filter")] = ArrayObject([NameObject(f) for f in chain])
             else:
                 so[NameObject("/Filter")] = NameObject("/DCTDecode")
-            xo[NameObject(f"/Im{k}")] = w._add_object(so)
+            if not chain and not (bad_width_first and k == 1):
+                ref_ = shared.get(a.media)
+                if ref_ is None:
+                    ref_ = shared[a.media] = w._add_object(so)
+            else:
+                ref_ = w._add_object(so)
+            xo[NameObject(f"/Im{k}")] = ref_
             ops_.append(f"q 50 0 0 50 {10 * k} 10 cm /Im{k} Do Q")
         res = DictionaryObject()
         res[NameObject("/XObject")] = xo
@@ -777,11 +787,13 @@ def check_views(cls=None):
                 kw[f.name] = k if "int" in ann else ("" if "str" in ann else (raw if "bytes" in ann else None))
         return cl(**kw)
     mk_img = {c: (lambda k, c=c: mk_image(c, k)) for c in icls}
-    mk_el = {"PdfContent": lambda imgs, tabs, k: dt.PdfPage(text=f"p{k}", images=imgs, tables=tabs),
-             "PptxContent": lambda imgs, tabs, k: dt.PptxSlide(slide_number=k, images=imgs, tables=tabs),
-             "XlsxContent": lambda imgs, tabs, k: dt.XlsxSheet(name=f"S{k}", images=imgs, data=(tabs[0] if tabs else [])),
-             "OdpContent": lambda imgs, tabs, k: dt.OdpSlide(slide_number=k, images=imgs, tables=tabs),
-             "OdsContent": lambda imgs, tabs, k: dt.OdsSheet(name=f"S{k}", images=imgs, data=(tabs[0] if tabs else []))}
+    # elements of every shape: with text, with blank text, with no text at all (a page / slide / sheet that only carries pictures)
+    txt = lambda k: ("", "  \n", f"p{k}")[k % 3]
+    mk_el = {"PdfContent": lambda imgs, tabs, k: dt.PdfPage(text=txt(k), images=imgs, tables=tabs),
+             "PptxContent": lambda imgs, tabs, k: dt.PptxSlide(slide_number=k, images=imgs, tables=tabs, base_text=txt(k), text=txt(k)),
+             "XlsxContent": lambda imgs, tabs, k: dt.XlsxSheet(name=("" if k % 3 == 0 else f"S{k}"), text=txt(k), images=imgs, data=(tabs[0] if tabs else [])),
+             "OdpContent": lambda imgs, tabs, k: dt.OdpSlide(slide_number=k, images=imgs, tables=tabs, title=txt(k).strip()),
+             "OdsContent": lambda imgs, tabs, k: dt.OdsSheet(name=("" if k % 3 == 0 else f"S{k}"), text=txt(k), images=imgs, data=(tabs[0] if tabs else []))}
     field = {"PdfContent": "pages", "PptxContent": "slides", "XlsxContent": "sheets", "OdpContent": "slides", "OdsContent": "sheets"}
     for c in ([cls] if cls else list(flat) + ["PptContent"]):
         if c not in flat and c != "PptContent":
@@ -1107,6 +1119,13 @@ def search(ob, wit=None):
         return witness("pdf-filter-chain", "pdf")
     if "size-is-the-declared-width-and-height" in ob:
         return first_failure([pdf_scenario([[(30, 20), (7, 9)]]), pdf_scenario([[(1, 300)]])], ("pixel-size", "bytes"))
+    if "images-of-a-page-are-built-for-that-page" in ob or (fmt == "pdf" and "/unit#" in ob):
+        sc = pdf_scenario([[(30, 20)], [(31, 21)], [(32, 22)]])
+        first = sc.units[0][0].media
+        sc.units[1].insert(0, Anchor(first))       # the picture of page 1 is placed again on pages 2 and 3 (same XObject)
+        sc.units[2].append(Anchor(first))
+        sc.note = "one image XObject placed on three pages"
+        return first_failure([sc], ("bytes", "unit"))
     if "number-and-page-are-the-arguments" in ob:
         return first_failure([pdf_scenario([[(30, 20), (7, 9)]])], ("numbering", "unit")) or first_failure([pdf_scenario([[(3, 2)], [(4, 5)]])], ("unit",))
     if "/completeness#" in ob:
@@ -1117,21 +1136,25 @@ def search(ob, wit=None):
         return witness("order", fmt)
     if "/bytes#" in ob or "/content-type#" in ob or "/unit#" in ob:
         asp = {"bytes": ("resolution", "bytes", "no-foreign"), "content-type": ("content-type",), "unit": ("unit",)}[ob.split("/")[-1].split("#")[0]]
-        return sweep(fmt, asp)
+        r = sweep(fmt, asp)
+        if r is None and "content-type" in asp:
+            # part names whose extension is not all lower case (IMG_0002.JPG): the content type is that of the lower-cased extension
+            r = sweep(fmt, asp, seeds=(0,), count=15, ext_case=True)
+        return r
     if "data_types.py" in ob:
         cls = ob.split("::")[1].split(".")[0] if "::" in ob else None
         return check_views(cls if cls and cls.endswith("Content") else None)
     return None
 
 
-def sweep(fmt, aspects, seeds=(0, 1), count=25, max_units=3, kinds=("embedded", "missing", "external")):
+def sweep(fmt, aspects, seeds=(0, 1), count=25, max_units=3, kinds=("embedded", "missing", "external"), ext_case=False):
     if fmt is None:
         return None
     if fmt == "pdf":
         return first_failure([pdf_scenario([[(30, 20), (10, 11)]]), pdf_scenario([[(5, 6)]])], aspects)
     styles = ("relative",) if fmt in ("odt", "odp", "ods", "odg") else ("relative", "parent", "absolute", "dot")
     for seed in seeds:
-        r = first_failure(gen_scenarios(fmt, seed, count, styles=styles, max_units=max_units, kinds=kinds), aspects, dedup=fmt in ("odt", "odg"))
+        r = first_failure(gen_scenarios(fmt, seed, count, styles=styles, max_units=max_units, kinds=kinds, ext_case=ext_case), aspects, dedup=fmt in ("odt", "odg"))
         if r:
             return r
     return None
